@@ -602,6 +602,54 @@ def check_C19(A, R, tier):
             R.ob("R19.2", "%s | a numeric limit that decides an error exit compares a constant-step counter with a size-scaled bound" % short(n),
                  okc, detail=why, site=A.site(cmpst))
     R.info["limit_comparisons"] = n_cmp
+    # R19.6: no size threshold: a branch on 'collection size vs. constant > 1' makes big projects take code that small ones (and
+    # the tests) never reach - the two sides would have to be proven equivalent, which nothing here does
+    n_thr = 0
+    for n in sorted(reach):
+        b = A.facts.bodies.get(n)
+        if b is None or b.kind == "Promoted" or b.derived:
+            continue
+        for blk in b.blocks:
+            if blk["cleanup"]:
+                continue
+            t = blk["term"]["t"]
+            if t["k"] != "switch":
+                continue
+            p = t["d"].get("copy") or t["d"].get("move")
+            if p is None or p["p"]:
+                continue
+            for st in blk["stmts"]:
+                if not (st["k"] == "assign" and not st["p"]["p"] and st["p"]["l"] == p["l"] and st["r"]["k"] == "binop"
+                        and st["r"]["op"] in ("Gt", "Ge", "Lt", "Le")):
+                    continue
+                if st["span"].get("exp"):
+                    continue        # comparisons inside macro expansions (assertions, formatting)
+                cval, other = None, None
+                for o, o2 in ((st["r"]["a"], st["r"]["b"]), (st["r"]["b"], st["r"]["a"])):
+                    if "const" in o and "int" in o:
+                        try:
+                            cval = int(o["int"], 16)
+                        except ValueError:
+                            cval = None
+                        other = o2
+                if cval is None or cval <= 1 or other is None:
+                    continue
+                pl = other.get("copy") or other.get("move")
+                if pl is None or pl["p"]:
+                    continue
+                sl = backward_slice(b, pl["l"])
+                sized = [c for c in sl["calls"] if c.endswith("::len") or "node_count" in c or "edge_count" in c
+                         or (c.endswith("::count") and "Iterator" in c)]
+                if not sized or sl["consts"] - {None}:
+                    # (arithmetic with other constants: e.g. a length compared after scaling - judged by R19.2 where it matters)
+                    if not sized:
+                        continue
+                n_thr += 1
+                R.ob("R19.6", "%s | a collection size is compared with the constant %d | no size threshold selects the code that runs"
+                     % (short(n), cval), False,
+                     detail="beyond %d elements (%s) the code takes another branch: behaviour that only projects of that size exercise"
+                            % (cval, ", ".join(sorted(short(c) for c in sized))), site=A.site(st))
+    R.info["size_thresholds"] = n_thr
     # R19.4: a worklist walk over the graph (take an element out of a local collection, put its neighbours in) remembers what it
     # has visited; without that its work is bounded by the number of *paths*, which is exponential in the depth of layered graphs
     n_walk = 0
@@ -993,6 +1041,9 @@ def check_C07(A, R, tier):
     T = A.transitions()
     UF = C["UpstreamFailed"]
     rule_failure_propagation(A, R, "R7.1", "R7.2")
+    # R7.10 (= R5.2): a failure elsewhere never ends the evaluation early: 'finished' is reported only when every job is (a count
+    # of 'done' announcements counts a job twice that is re-classified upstream-failed after it was skipped)
+    rule_finished_means_all(A, R, "R7.10")
     # R7.3 typestate
     postrun = set(C["Running"])
     changed = True
@@ -1475,6 +1526,15 @@ def rule_offer_guard(A, R, rule, need_success=True):
             R.ob(rule, "cleanup offer | a direct downstream in state %s | blocks the offer unless it finished%s" % (A.sname(d), " without failure" if need_success else ""),
                  (d not in res["passing"]) or d in okdown,
                  detail="a downstream in state %s leaves all guard flags of the offer raised" % A.sname(d), site=res["site"])
+        if need_success:
+            # ... and the converse ('not forgotten'): a downstream that finished without failure never holds the offer back,
+            # in whichever of those states it is by the time the last of its siblings finishes (e.g. already cleaned up itself)
+            reach_ = A.reach()
+            for d in sorted(okdown & reach_):
+                R.ob(rule, "cleanup offer | a direct downstream in state %s | does not hold the offer back" % A.sname(d),
+                     d in res["passing"],
+                     detail="a downstream that finished without failure in state %s lowers a guard flag: the Ephemeral above it is never "
+                            "offered for cleanup" % A.sname(d), site=res["site"])
         R.ob(rule, "%s | the downstream loop only lowers its flags (conjunction over all downstreams)" % short(offer_fn),
              not res["bad_flags"] and res["flags"] >= 1, detail="flags not monotone: %s" % res["bad_flags"])
         R.ob(rule, "%s | the offer is dominated by all guard flags being raised" % short(offer_fn), res["gate_ok"],
@@ -1766,6 +1826,11 @@ def check_C10(A, R, tier):
         # 'nothing running' is read off a maintained set: it must follow the Running class on every path (also those that fail a job)
         from rules_protocol import pairing
         pairing(A, R, "R10.2r", C["Running"], ("self", C["RunningSetField"]), "running")
+    elif C["RunningQ"] is not None:
+        # 'nothing running after the abort' is what query_jobs_running reports: a scan of the job states over exactly the class the
+        # abort handler empties (= R5.2); anything else (a table kept on the side) has to be paired with the class
+        R.ob("R10.2r", "query_jobs_running is a scan of the job states over exactly the Running class", C["RunningQ"] == C["Running"],
+             detail="the report is not derived from the job states: it can name a job as running that the abort (or a failure) finished")
     # R10.3: the evaluation is marked finished so that the history can be obtained --------------------
     isf = A.evaluator_fn("is_finished")
     ok_call, _ = must_pass_call(A, ab, lambda nm: nm == isf.name, lambda nm: "from_residual" in nm)
@@ -2116,6 +2181,10 @@ def check_C02(A, R, tier):
     # R2.7: an undecided consumer is never counted as 'does not need the Ephemeral' (= R5.5/R5.6): otherwise the Ephemeral is
     # skipped for good and the consumer is later offered without its input having been executed
     rule_undecided_downstream(A, R, "R2.7", "R2.7")
+    # R2.8 (= R4.7, upward direction): the walk that hands 'needed' up a chain of Ephemerals reaches every unfinished Ephemeral
+    # upstream whatever the dependency is flagged as already - otherwise the top of the chain is skipped while its consumer runs
+    from rules_c04 import rule_walk_reaches_every_ephemeral
+    rule_walk_reaches_every_ephemeral(A, R, "R2.8")
     # R2.3: get_job_output reports the field the success event stored
     gjo = A.evaluator_fn("get_job_output")
     r = A.joined_run(gjo)
